@@ -47,3 +47,203 @@ package parser
 //@ func (*SourceFileSet).Position
 //@   mode unverified sort.Search over the file table; only the frame is used
 //@   assigns s.LastFile
+
+// ---------------------------------------------------------------------------
+// C04: the scanner never indexes or slices outside its source, and every Scan
+// call at a character consumes input (or turns the pending-semicolon flag off),
+// which is the progress measure the parser's loops rely on.
+// ---------------------------------------------------------------------------
+
+// scanner representation: the current character occupies src[offset:readOffset]
+//@ define swf(s): s.file != nil && 0 <= s.offset && s.offset <= s.readOffset && s.readOffset <= len(s.src)
+//@                && s.file.Size == len(s.src) && 0 <= s.file.Base && s.file.Base < 1<<40
+//@                && (s.ch >= 0 ==> s.offset < s.readOffset) && (s.ch < 0 ==> s.offset == len(s.src) && s.readOffset == len(s.src))
+//@ define srep(s): s.file != nil && 0 <= s.offset && s.offset <= s.readOffset && s.readOffset <= len(s.src)
+//@                && s.file.Size == len(s.src) && 0 <= s.file.Base && s.file.Base < 1<<40
+// what no scanner operation changes
+//@ define skeep(s): sameslice(s.src, old(s.src)) && s.file == old(s.file) && s.mode == old(s.mode)
+
+// a source file's extent is fixed when it is added to the set
+//@ immutable SourceFile.Size {C04}
+//@ immutable SourceFile.Base {C04}
+
+//@ func isLetter
+//@   props C04
+//@   pure
+//@   assigns nothing
+//@   ensures nonneg: result ==> ch >= 0
+//@ func isDigit
+//@   props C04
+//@   pure
+//@   assigns nothing
+
+//@ func extern unicode/utf8.DecodeRune
+//@   assigns nothing
+//@   ensures width: len(p) > 0 ==> 1 <= size && size <= len(p)
+//@   ensures rune: r >= 0
+//@ func extern unicode.IsLetter
+//@   pure
+//@ func extern unicode.IsDigit
+//@   pure
+
+// Position/AddLine of a source file: line table bookkeeping (binary search over the line table: not verified here)
+//@ func (*SourceFile).Position
+//@   mode unverified binary search over the line table; only the frame is used
+//@   assigns nothing
+//@ func (*SourceFile).AddLine
+//@   mode unverified appends to the line table; only the frame is used
+//@   assigns f.Lines, f.Lines[*]
+
+//@ func (*Scanner).error
+//@   props C04
+//@   private s
+//@   requires srep(s)
+//@   requires within: 0 <= offset && offset <= len(s.src)
+//@   assigns *
+//@   ensures skeep(s) && s.offset == old(s.offset) && s.readOffset == old(s.readOffset) && s.ch == old(s.ch) && s.insertSemi == old(s.insertSemi)
+
+//@ func (*Scanner).next
+//@   props C04
+//@   private s
+//@   requires rep: srep(s)
+//@   assigns *
+//@   ensures rep: swf(s) && skeep(s) && s.insertSemi == old(s.insertSemi)
+//@   ensures mono: s.offset >= old(s.offset) && s.offset == old(s.readOffset) || (old(s.readOffset) >= len(s.src) && s.offset == len(s.src))
+//@   ensures progress: old(s.ch) >= 0 && old(s.offset) < old(s.readOffset) ==> s.offset > old(s.offset)
+
+//@ func (*Scanner).peek
+//@   props C04
+//@   requires swf(s)
+//@   assigns nothing
+
+//@ func (*Scanner).skipWhitespace
+//@   props C04
+//@   private s
+//@   requires swf(s)
+//@   assigns *
+//@   ensures swf(s) && skeep(s) && s.offset >= old(s.offset) && s.insertSemi == old(s.insertSemi)
+//@   loop 0 invariant swf(s) && skeep(s) && s.offset >= old(s.offset) && s.insertSemi == old(s.insertSemi)
+
+//@ func (*Scanner).switch2
+//@   props C04
+//@   private s
+//@   requires swf(s)
+//@   assigns *
+//@   ensures swf(s) && skeep(s) && s.offset >= old(s.offset) && s.insertSemi == old(s.insertSemi)
+//@ func (*Scanner).switch3
+//@   props C04
+//@   private s
+//@   requires swf(s)
+//@   assigns *
+//@   ensures swf(s) && skeep(s) && s.offset >= old(s.offset) && s.insertSemi == old(s.insertSemi)
+//@ func (*Scanner).switch4
+//@   props C04
+//@   private s
+//@   requires swf(s)
+//@   assigns *
+//@   ensures swf(s) && skeep(s) && s.offset >= old(s.offset) && s.insertSemi == old(s.insertSemi)
+
+//@ func (*Scanner).scanIdentifier
+//@   props C04
+//@   private s
+//@   requires swf(s) && s.ch >= 0
+//@   requires letter: purecall(isLetter, s.ch)
+//@   assigns *
+//@   ensures swf(s) && skeep(s) && s.insertSemi == old(s.insertSemi)
+//@   ensures progress: s.offset > old(s.offset)
+//@   loop 0 invariant swf(s) && skeep(s) && s.offset >= offs && s.insertSemi == old(s.insertSemi)
+//@   loop 0 invariant started: s.offset > old(s.offset) || (s.offset == old(s.offset) && s.ch == old(s.ch))
+
+//@ func (*Scanner).scanDigits
+//@   props C04
+//@   private s
+//@   requires swf(s)
+//@   assigns *
+//@   ensures swf(s) && skeep(s) && s.offset >= old(s.offset) && s.insertSemi == old(s.insertSemi)
+//@   ensures eats: old('0' <= s.ch && s.ch <= '9') && base >= 10 ==> s.offset > old(s.offset)
+//@   loop 0 invariant swf(s) && skeep(s) && s.offset >= old(s.offset) && s.insertSemi == old(s.insertSemi)
+//@   loop 0 invariant started: s.offset > old(s.offset) || (s.offset == old(s.offset) && s.ch == old(s.ch))
+
+// a number starts at an ASCII digit, or at a '.' that is followed by one: that first character is consumed
+//@ func (*Scanner).scanNumber
+//@   props C04
+//@   private s
+//@   requires swf(s)
+//@   requires starts_number: ('0' <= s.ch && s.ch <= '9') || s.ch == '.'
+//@   assigns *
+//@   ensures swf(s) && skeep(s) && s.insertSemi == old(s.insertSemi)
+//@   ensures progress: s.offset > old(s.offset)
+
+//@ func (*Scanner).scanEscape
+//@   props C04
+//@   private s
+//@   requires swf(s)
+//@   assigns *
+//@   ensures swf(s) && skeep(s) && s.offset >= old(s.offset) && s.insertSemi == old(s.insertSemi)
+//@   loop 0 invariant swf(s) && skeep(s) && s.offset >= old(s.offset) && s.insertSemi == old(s.insertSemi)
+
+//@ func (*Scanner).scanRune
+//@   props C04
+//@   private s
+//@   requires swf(s) && s.offset >= 1
+//@   assigns *
+//@   ensures swf(s) && skeep(s) && s.offset >= old(s.offset) && s.insertSemi == old(s.insertSemi)
+//@   loop 0 invariant swf(s) && skeep(s) && s.offset >= old(s.offset) && s.insertSemi == old(s.insertSemi)
+
+//@ func (*Scanner).scanString
+//@   props C04
+//@   private s
+//@   requires swf(s) && s.offset >= 1
+//@   assigns *
+//@   ensures swf(s) && skeep(s) && s.offset >= old(s.offset) && s.insertSemi == old(s.insertSemi)
+//@   loop 0 invariant swf(s) && skeep(s) && s.offset >= old(s.offset) && s.insertSemi == old(s.insertSemi)
+
+//@ func (*Scanner).scanRawString
+//@   props C04
+//@   private s
+//@   requires swf(s) && s.offset >= 1
+//@   assigns *
+//@   ensures swf(s) && skeep(s) && s.offset >= old(s.offset) && s.insertSemi == old(s.insertSemi)
+//@   loop 0 invariant swf(s) && skeep(s) && s.offset >= old(s.offset) && s.insertSemi == old(s.insertSemi)
+
+//@ func StripCR
+//@   props C04
+//@   assigns nothing
+//@   ensures len(result) <= len(b) && fresh(result)
+//@   loop 0 invariant 0 <= i && i <= rangeindex + 1 && len(c) == len(b) && fresh(c)
+
+//@ func (*Scanner).scanComment
+//@   props C04
+//@   private s
+//@   requires swf(s) && s.offset >= 1 && (s.ch == '/' || s.ch == '*')
+//@   assigns *
+//@   ensures swf(s) && skeep(s) && s.offset > old(s.offset) && s.insertSemi == old(s.insertSemi)
+//@   loop 0 invariant swf(s) && skeep(s) && s.offset > old(s.offset) && s.insertSemi == old(s.insertSemi)
+//@   loop 1 invariant swf(s) && skeep(s) && s.offset > old(s.offset) && s.insertSemi == old(s.insertSemi)
+
+// findLineEnd looks ahead and then puts the scanner back where it was
+//@ func (*Scanner).findLineEnd
+//@   props C04
+//@   private s
+//@   requires swf(s) && s.offset >= 1 && (s.ch == '/' || s.ch == '*') && s.src[s.offset-1] == '/'
+//@   assigns *
+//@   ensures swf(s) && skeep(s) && s.offset == old(s.offset) && s.insertSemi == old(s.insertSemi)
+//@   loop 0 invariant swf(s) && skeep(s) && s.offset >= old(s.offset) && s.insertSemi == old(s.insertSemi)
+//@   loop 1 invariant swf(s) && skeep(s) && s.offset >= old(s.offset) && s.insertSemi == old(s.insertSemi)
+
+// Scan: progress. At a character, a call moves the offset forward, or (a comment that ends a line while a
+// semicolon is pending) stays in place and clears the pending-semicolon flag, after which the next call moves.
+//@ func (*Scanner).Scan
+//@   props C04
+//@   private s
+//@   requires swf(s)
+//@   assigns *
+//@   ensures rep: swf(s) && skeep(s) && s.offset >= old(s.offset)
+//@   ensures progress: old(s.ch) >= 0 && s.mode & DontInsertSemis == 0 ==> s.offset > old(s.offset) || (old(s.insertSemi) && !s.insertSemi)
+
+// the size check in NewScanner is what ties the file's extent to the source (a mismatch is a documented panic)
+//@ func NewScanner
+//@   props C04
+//@   requires file != nil && file.Size == len(src) && 0 <= file.Base && file.Base < 1<<40
+//@   assigns *
+//@   ensures result != nil && fresh(result) && swf(result)
